@@ -8,7 +8,7 @@ from concurrent.futures import ThreadPoolExecutor
 VERIF = os.path.dirname(os.path.dirname(os.path.abspath(__file__)))
 sys.path.insert(0, VERIF)
 from sa.index import REPO  # noqa: E402
-from sa.selftest import make_tree  # noqa: E402
+from sa.selftest import make_tree, seed_patch  # noqa: E402
 
 
 def patched_files(patch_path: str) -> dict[str, str]:
@@ -35,7 +35,7 @@ def run_seed(sid: str) -> dict:
     checks = [c["property_id"] for c in json.load(open(os.path.join(VERIF, "MANIFEST.json")))["checks"]]
     res = {"seed": sid, "property": meta["property"], "fired": {}, "errors": {}}
     try:
-        edits = patched_files(os.path.join(sd, "patch.diff"))
+        edits = patched_files(seed_patch(sd))
     except RuntimeError as e:
         res["errors"]["patch"] = str(e)
         return res
